@@ -3,10 +3,13 @@ package rules
 import (
 	"fmt"
 	"go/ast"
+	"go/token"
 	"go/types"
 	"strings"
 
 	"defracheck/internal/eng"
+
+	"golang.org/x/tools/go/cfg"
 )
 
 // sharedStateExceptions: writes to receiver state inside a transactional function, outside a
@@ -149,4 +152,117 @@ func ruleSharedStateOnSuccess(c *eng.Ctx) {
 	}
 	c.Floor(rule, n, 1)
 	_ = strings.HasPrefix
+}
+
+// ruleHandleIndexUndo: a *collection value is handed to the caller and outlives the transaction in
+// which CreateIndex / DropIndex ran. Both change the handle's own list of indexes (c.indexes and the
+// descriptions in c.def.Version.Indexes) at once, so that the rest of the transaction works with the
+// new set. If that transaction is discarded (or its commit fails) the database does not have the
+// change — so the handle must not keep it: every success path of createIndex and dropIndex registers an
+// undo with the transaction (OnDiscard / OnError, directly or through a helper of the collection that
+// does). Otherwise a discarded CreateIndex(unique) keeps being enforced — and written — through that
+// handle, and a discarded DropIndex leaves documents created through it unindexed.
+func ruleHandleIndexUndo(c *eng.Ctx) {
+	const rule = "HANDLE-INDEX-UNDO"
+	// helpers of *collection that register an undo with the transaction
+	registers := func(info *types.Info, call *ast.CallExpr) bool {
+		name := eng.CalleeName(info, call)
+		if strings.HasSuffix(name, ".OnDiscard") || strings.HasSuffix(name, ".OnError") || strings.HasSuffix(name, ".OnDiscardAsync") || strings.HasSuffix(name, ".OnErrorAsync") {
+			return true
+		}
+		if g := c.P.Func(name); g != nil && g.Decl.Body != nil && strings.HasPrefix(name, "internal/db.") {
+			for _, cs := range eng.Calls(g.Pkg.TypesInfo, g.Decl.Body) {
+				if strings.HasSuffix(cs.Name, ".OnDiscard") || strings.HasSuffix(cs.Name, ".OnError") {
+					return true
+				}
+			}
+		}
+		return false
+	}
+	for _, fname := range []string{"internal/db.(*collection).createIndex", "internal/db.(*collection).dropIndex"} {
+		fi := c.Anchor(rule, fname)
+		if fi == nil {
+			continue
+		}
+		info := fi.Pkg.TypesInfo
+		flow := eng.NewFlow(info, fi.Decl.Body)
+		isUndo := func(nd ast.Node) bool {
+			return eng.FindCall(nd, false, func(call *ast.CallExpr) bool { return registers(info, call) }) != nil
+		}
+		// "found" flags: bool locals that start false and are set to true only after an undo has been
+		// registered are still false on every path that has not passed one (`if !didFind { return err }`)
+		stillFalse := map[types.Object]bool{}
+		ast.Inspect(fi.Decl.Body, func(m ast.Node) bool {
+			if vs, ok := m.(*ast.ValueSpec); ok && len(vs.Values) == 0 {
+				for _, nm := range vs.Names {
+					if o := info.Defs[nm]; o != nil {
+						if b, ok := o.Type().Underlying().(*types.Basic); ok && b.Kind() == types.Bool {
+							stillFalse[o] = true
+						}
+					}
+				}
+			}
+			return true
+		})
+		ast.Inspect(fi.Decl.Body, func(m ast.Node) bool {
+			as, ok := m.(*ast.AssignStmt)
+			if !ok {
+				return true
+			}
+			for i, l := range as.Lhs {
+				o := eng.ObjOf(info, l)
+				if o == nil || !stillFalse[o] {
+					continue
+				}
+				setTrue := false
+				if len(as.Lhs) == len(as.Rhs) {
+					if tv, ok := info.Types[as.Rhs[i]]; ok && tv.Value != nil && tv.Value.String() == "true" {
+						setTrue = true
+					}
+				}
+				pt, okp := flow.PointOf(as)
+				if !setTrue || !okp || flow.ReachesWithout(pt, isUndo, nil) {
+					delete(stillFalse, o)
+				}
+			}
+			return true
+		})
+		// success exits: return …, nil
+		where := token.NoPos
+		leak := flow.Forward(flow.Entry(), true, eng.Walk{
+			Visit: func(_ eng.Point, nd ast.Node) eng.Action {
+				if isUndo(nd) {
+					return eng.Cut
+				}
+				return eng.Continue
+			},
+			Edge: func(cond ast.Expr, taken bool) bool {
+				switch eng.EvalBool(info, cond, func(e ast.Expr) eng.Tri {
+					if o := eng.ObjOf(info, e); o != nil && stillFalse[o] {
+						return eng.False
+					}
+					return eng.Unknown
+				}) {
+				case eng.True:
+					return taken
+				case eng.False:
+					return !taken
+				}
+				return true
+			},
+			OnExit: func(ret *ast.ReturnStmt, _ *cfg.Block) eng.Action {
+				if ret == nil || len(ret.Results) == 0 {
+					return eng.Continue
+				}
+				last := ret.Results[len(ret.Results)-1]
+				if tv, ok := info.Types[last]; ok && tv.IsNil() {
+					where = ret.Pos()
+					return eng.Hit
+				}
+				return eng.Continue
+			},
+		})
+		c.Check(!leak, rule, shortFn(fi)+":success-path-registers-undo", fi.Decl.Pos(), "the handle's index list is restored if the transaction does not commit",
+			shortFn(fi)+" returns success at "+c.P.Rel(where)+" without having registered an undo of the handle's index list with the transaction: after a discarded (or failed) transaction the caller's collection handle still has the changed index set, which the database does not — a discarded unique index keeps being enforced and written through that handle, a discarded drop leaves new documents unindexed")
+	}
 }
